@@ -171,6 +171,36 @@ def run_c08(tier):
         importlib.reload(index)  # a fresh module: nothing looked up before
         pairing_pass(acc, index, mods, payloads, order_name)
     importlib.reload(index)
+    # histories: every sequence up to length 5 over the pairing lookups of three classes (two requests of different
+    # flexibility and header version, one response), revisits included; each call is judged by its own argument
+    import itertools
+
+    def top_of(api, ver, typ):
+        return top_level(mods[(api, ver, typ)][0], typ)[0]
+
+    letters = [(index.load_response_from_request, top_of("fetch", 4, "request"), top_of("fetch", 4, "response")),
+               (index.load_response_from_request, top_of("produce", 9, "request"), top_of("produce", 9, "response")),
+               (index.load_request_from_response, top_of("metadata", 12, "response"), top_of("metadata", 12, "request"))]
+    nseq = 0
+    for d in range(1, 6):
+        for seq in itertools.product(range(len(letters)), repeat=d):
+            nseq += 1
+            acc.add("evaluations")
+            for step, li in enumerate(seq):
+                fn, arg, want = letters[li]
+                try:
+                    got = fn(arg)
+                except Exception as e:  # noqa: BLE001
+                    got = e
+                if got is not want:
+                    acc.report(violation("C08", "pairing", "C08/pairing-depends-on-earlier-lookups", f"{arg.__module__}:{arg.__qualname__}",
+                                         {"lookup_history": [[letters[i][0].__name__, letters[i][1].__module__] for i in seq], "step": step},
+                                         repr(want), repr(got)[:300], (d, nseq)))
+                    break
+            else:
+                acc.outcome("pairing unaffected by earlier lookups")
+    acc.add("pairing_histories", nseq)
+    importlib.reload(index)
     run.merge(acc.result())
     c = run.cov
     c["payload_classes"] = n_payload
@@ -180,7 +210,7 @@ def run_c08(tier):
                  "the pinned API table (key, version range, first flexible version), not to the class's own constants; "
                  "request/response agreement; load_response_from_request / load_request_from_response mutually inverse "
                  "on classes and on instances, in two passes on a freshly reloaded kio.index: class looked up first, then instance, and "
-                 "instance first, then class. Each (class, check) is one evaluation")
+                 "instance first, then class; every sequence up to length 5 over the pairing lookups of three classes, revisits included. Each (class, check) is one evaluation")
     c["exhaustive"] = True
     run.assumptions += ["pins/kafka-3.9.0-apis.json (derived from the baseline tree, spot-checked against the 3.9.0 protocol tables)"]
     if n_payload < 600:
